@@ -3,7 +3,14 @@ LOOP_SWAP = ["eventloop_unix.go", "connection_unix.go", "connection_linux.go", "
              "pkg/socket/sock_cloexec.go", "pkg/socket/fd_unix.go"]
 
 PROP = dict(
-    drivers=[dict(cmd="drv-engine", family="engine", unix_swap=LOOP_SWAP, args=["-focus", "shutdown"])],
+    drivers=[dict(cmd="drv-engine", family="engine", unix_swap=LOOP_SWAP, args=["-focus", "shutdown"]),
+             # one loop's share of shutdown as the loop-family driver exercises it (Shutdown actions from every callback,
+             # the closing sweep with handlers that write or close inside OnClose, injected I/O failures), judged here only
+             # by the shutdown-related oracles; added by the orchestrator after a seeded change (second OnClose from a
+             # failing write inside OnClose during the sweep) was caught by C04 but not by this check
+             dict(cmd="drv-loop", family="loop", variant="sweep", shrink=False, args=["-focus", "fault", "-n", "30"],
+                  sites=["^lifecycle$", "^shutdown$", "^loop-stuck$", "^engine-start$", "^fd-leak$"],
+                  unix_swap=LOOP_SWAP, timeout=dict(quick=600, thorough=3000))],
     rule="a case is one engine life on the REAL engine built from the current tree: configuration sampled from {tcp, unix, udp} x "
          "{1, 2, 4 loops} x {reactor, reuse-port} x {LT, ET} x {ticker on/off} x {1, 2 listeners} (+ Client with 1-2 loops), 0-4 "
          "connections with some traffic, then one SOURCE of shutdown (Engine.Stop live/expired, gnet.Stop, Shutdown returned from "
